@@ -339,6 +339,14 @@ func c11adjOptions(dims []string, vals []string, skips []any) []c11adj {
 			}
 		}
 		withs = append(withs, miss, extra, ren)
+		if dims[0] != "" {
+			// first dimension "renamed" to the anonymous one (what a scalar `with: a` decodes to): as malformed as any other unknown name
+			anon := map[string]string{"": "a"}
+			for _, d := range dims[1:] {
+				anon[d] = "a"
+			}
+			withs = append(withs, anon)
+		}
 	} else {
 		withs = append(withs, map[string]string{"zz": "a"})
 	}
@@ -454,6 +462,69 @@ func c11run(w *report.W) {
 			Adjs: []c11adj{{With: map[string]string{"os": "c", "arch": "a"}, Skip: "reason"}}}, Perm: map[string]string{"os": "c", "arch": "a"}, Via: "direct"})
 	}
 
+	// long value lists (disjoint between the dimensions): a value is acceptable for the dimension it is listed under only.
+	// Every candidate permutation is also run under every iteration order of the library's map loops.
+	for _, n := range []int{2, 8, 9, 17, 65} {
+		for _, dims := range [][]string{{"os", "arch"}, {"os", "arch", "v"}} {
+			setup := map[string][]string{}
+			for _, d := range dims {
+				for i := 0; i < n; i++ {
+					setup[d] = append(setup[d], fmt.Sprintf("%s-%d", d, i))
+				}
+			}
+			m := c11matrix{Dims: dims, Setup: setup, Adjs: []c11adj{{With: map[string]string{dims[0]: "extra", dims[1]: dims[1] + "-0"}, Skip: nil}}}
+			if len(dims) == 3 {
+				m.Adjs[0].With[dims[2]] = dims[2] + "-1"
+			}
+			m.canon = c11mcanon(m)
+			var choices [][]string
+			for di, d := range dims {
+				other := dims[(di+1)%len(dims)]
+				choices = append(choices, []string{d + "-0", fmt.Sprintf("%s-%d", d, n-1), other + "-0", fmt.Sprintf("%s-%d", other, n-1), "extra", "unknown"})
+			}
+			idx := make([]int, len(dims))
+			for {
+				p := map[string]string{}
+				for di, d := range dims {
+					p[d] = choices[di][idx[di]]
+				}
+				c := c11case{M: m, Perm: p, Via: "direct"}
+				if w.Take("long:" + c11canon(c)) {
+					c11judge(c) // warm the JSON cache outside the chooser
+					verifseam.OpenMaxLen = 3
+					ex := &explore.Explorer{Bound: 0, MaxExec: 5000}
+					ex.Run = func(x *explore.X) bool {
+						verifseam.SetChooser(x.Choose)
+						kind, detail, _ := c11judge(c)
+						verifseam.SetChooser(nil)
+						if kind != "" {
+							w.Violate(report.Violation{Kind: "long-lists-" + kind, Case: fmt.Sprintf("%d values per dimension: %s schedule %s", n, c11canon(c), x.String()), Detail: detail, Size: 20 + n, Replay: c})
+							return false
+						}
+						return true
+					}
+					ex.Explore()
+					verifseam.OpenMaxLen = 0
+					w.P.Evaluations += ex.Stats.Executions
+					w.P.Nontrivial++
+					w.Count("long_list_schedules", ex.Stats.Executions)
+				}
+				k := 0
+				for k < len(idx) {
+					idx[k]++
+					if idx[k] < len(choices[k]) {
+						break
+					}
+					idx[k] = 0
+					k++
+				}
+				if k == len(idx) {
+					break
+				}
+			}
+		}
+	}
+
 	// nil dimension lists: no panic only
 	for _, p := range []map[string]string{{}, {"os": "a"}, {"os": "a", "arch": "a"}} {
 		cs := fmt.Sprintf("nil-list setup perm=%v", p)
@@ -529,7 +600,7 @@ func init() {
 	register(&report.Check{
 		ID: "C11",
 		Rule: "small scope fully open: matrices with an anonymous dimension, 0-2 (3 in the restricted scopes) named dimensions over {os,arch,v}, every value list ⊆ {a,b} incl. empty, " +
-			"0-2 adjustments each a tuple over {a,b,c} or malformed (missing / extra / renamed dimension) x skip in {absent,false,true,a reason string,the string \"false\"}, nil matrix; x every permutation " +
+			"0-2 adjustments each a tuple over {a,b,c} or malformed (missing / extra / renamed dimension) x skip in {absent,false,true,a reason string,the string \"false\"}, nil matrix; long disjoint value lists (2..65 values per dimension, 2-3 dimensions; each dimension given its own first / last value, another dimension's, the adjustment's, an unknown one; under every explored iteration order); x every permutation " +
 			"= every map from every subset of (dimensions + one unknown) to {a,b,c} and the empty/nil one; built directly and (for <=N adjustments) through Parse of rendered YAML; " +
 			"verdict compared with the predicate of the statement through the public InterpolateMatrixPermutation; on reject deep snapshot + JSON unchanged; on accept the command " +
 			"carries the values. Seam: every iteration order of the four range loops for a 2-dimension sub-scope. Non-trivial = has adjustments and a non-empty permutation.",
